@@ -1,7 +1,10 @@
 use std::sync::Arc;
 
 use log::debug;
+#[cfg(not(cached_verif))]
 use parking_lot::RwLock;
+#[cfg(cached_verif)]
+use crate::cache::verif::RwLock;
 use rand::{Rng, thread_rng};
 
 use crate::cache::buffer_event::{BufferConsumer, BufferEvent};
@@ -77,6 +80,10 @@ impl<Consumer> Pool<Consumer>
 #[cfg(cached_verif)]
 impl<Consumer> Pool<Consumer>
     where Consumer: BufferConsumer {
+    pub(crate) fn verif_lock_ids(&self) -> Vec<(i64, String)> {
+        self.buffers.iter().enumerate().map(|(index, buffer)| (buffer as *const _ as i64, format!("buf{}", index))).collect()
+    }
+
     pub(crate) fn verif_buffer_lens(&self) -> Vec<Option<usize>> {
         self.buffers.iter().map(|buffer| buffer.try_read().map(|buffer| buffer.key_hashes.len())).collect()
     }
